@@ -3,7 +3,7 @@ import random
 import props_PN
 from propdefs import bfs
 
-N_DOCS = 25
+N_DOCS = 26
 GOOD_URLS = [1, 2, 3, 4, 16, 13, 17]
 ODD_URLS = [5, 6, 7, 8, 9, 10, 11, 12, 13, 14, 15, 18, 19]
 
@@ -52,7 +52,8 @@ def c13_groups(cases, ctx):
         for d in range(N_DOCS):
             url = GOOD_URLS[(d + rep) % len(GOOD_URLS)]
             chosen = opts if per >= len(opts) else rnd.sample(opts, per)
-            hist = [step(o, "apply", url) for o in chosen]
+            # mostly Apply on the parsed tree; every option tuple also goes through one of the other entry points now and then
+            hist = [step(o, rnd.choice(["apply", "apply", "apply", "url", "reader", "file"]), url) for o in chosen]
             rnd.shuffle(hist)
             out.append(dict(p=dict(doc=d + N_DOCS * rep, root="document", hist=hist)))
     return out
@@ -99,7 +100,7 @@ def c10_groups(cases, ctx):
                 for o in rnd.sample(opts, 3):
                     entries = ["apply", "apply", "apply"]
                     if root == "document":
-                        entries += ["reader", "url"]
+                        entries += ["reader", "url", "file"]
                     hist += [step(o, e, url) for e in entries]
                 out.append(dict(p=dict(doc=d + N_DOCS * rep, root=root, hist=hist)))
     return out
@@ -121,7 +122,7 @@ def c01_groups(cases, ctx):
                 entry = "apply" if root != "document" else rnd.choice(["apply", "apply", "reader"])
                 out.append(dict(p=dict(doc=d, root=root, hist=[step(o, entry, url)])))
     # the documents with pagers and odd anchors, systematically through every page-URL class and both finders
-    for d in (1, 8, 9, 11, 15, 16, 18, 23):
+    for d in (1, 8, 9, 11, 15, 16, 18, 23, 24):
         for url in GOOD_URLS + ODD_URLS:
             for algo in ("prevnext", "pagenumber"):
                 for rep in range(3 if ctx["tier"] == "quick" else 25):
